@@ -142,6 +142,7 @@ func (m *Machine) Run(args []string, o RunOpts) *Result {
 	cmd := exec.CommandContext(ctx, m.Bin, args...)
 	cmd.Dir = filepath.Join(m.Workspace, filepath.FromSlash(o.Cwd))
 	env := []string{
+		"PWD=" + cmd.Dir, // what a shell would export: keeps a symlinked path symlinked for os.Getwd
 		"PATH=" + os.Getenv("PATH"),
 		"HOME=" + m.Home,
 		"GROG_ROOT=" + m.Root,
